@@ -27,7 +27,7 @@ AnyLab(v) == CASE v.t = "obj" -> Obj([i \in 1..Len(v.kv) |-> <<v.kv[i][1], AnyLa
 Items(t) == Arr(<<Leaf("plain", "any"), Leaf("num", "any"), Null("any"), Arr(<<Leaf("num", "any"), Leaf("plain", "any")>>), Leaf("bool", "any"), t>>)
 
 Slots == {"filter", "query", "sort", "q", "u", "update", "updatePipe", "updates", "deletes", "documents", "documentsNoInsert",
-          "pipeline", "uPipe", "other"} \cup (IF EWDamaged THEN DamagedSlots ELSE {})
+          "pipeline", "uPipe", "other", "arrayFilters", "writeStmt"} \cup (IF EWDamaged THEN DamagedSlots ELSE {})
 
 \* shallow zone content: a field with a literal, an operator over a literal, an array of literals, a nested document
 Contents == {"field", "op", "arr", "nested", "ref", "numbool"}
@@ -57,6 +57,12 @@ CmdFor(s, t) ==
     [] s = "documentsNoInsert" -> Cmd("find", "documents", Arr(<<t>>))
     [] s = "pipeline"  -> Cmd("aggregate", "pipeline", Arr(<<MatchStage(t), SetStage(t)>>))
     [] s = "other"     -> Cmd("find", "projection", t)
+    \* the update specification spelled at command level: findAndModify with arrayFilters, and the WRITE log line of one
+    \* update statement ({q, u, c, arrayFilters, multi, upsert} - no verb key at all)
+    [] s = "arrayFilters" -> Obj(<< <<"findAndModify", NsName>>, <<"query", t>>, <<"update", Obj(<< <<"$set", t>> >>)>>,
+                                    <<"arrayFilters", Arr(<<t, t>>)>>, <<"$db", NsName>> >>)
+    [] s = "writeStmt" -> Obj(<< <<"q", t>>, <<"u", Arr(<<SetStage(t)>>)>>, <<"c", t>>, <<"arrayFilters", Arr(<<t>>)>>,
+                                 <<"multi", Bool("free")>>, <<"upsert", Bool("free")>> >>)
     [] s = "updatesItems"   -> Cmd("update", "updates", Items(t))
     [] s = "deletesItems"   -> Cmd("delete", "deletes", Items(t))
     [] s = "documentsItems" -> Cmd("insert", "documents", Items(t))
